@@ -1,4 +1,4 @@
-(* C03_refuted_saam.v — witness, inside the regenerated model, of the known finding "SAAM.../Q-nonfinite@level":
+(* C03_refuted_saam.v — witness, inside the regenerated model, of the known finding "SAAM.am-quaternion/nan-or-nan-rejected@level":
    for a level device (acc = +z) SAAM's pre-normalisation quaternion is exactly zero for every magnetic reading, so the
    code divides 0 by 0 (NaN in binary64; the zero vector in Coq's total division) — not a unit quaternion. *)
 From Coq Require Import Reals List Lra.
